@@ -1006,6 +1006,14 @@ func (a *actor) exec(st *Step, idx int) bool {
 				case st.OnShut == "poll":
 					// ignore the event but keep polling: a second SHUTDOWN event would show up in the trace
 					continue
+				case st.OnShut == "exiterr":
+					// report an exit error during the teardown, then exit
+					rep := Step{Op: "ext.exiterror", Name: st.Name, ErrType: "Extension.TeardownReport", Tag: st.Tag}
+					a.step(&rep, idx)
+					if a.proc != nil {
+						a.proc.die(nil, i32(0), "shutdown-event")
+					}
+					return false
 				case st.OnShut == "ignore":
 					<-a.ctx.Done()
 					return false
